@@ -17,6 +17,8 @@ import (
 	"math/rand"
 	"os"
 	"strings"
+	"sync"
+	"testing/iotest"
 
 	"github.com/la5nta/wl2k-go/lzhuf"
 
@@ -509,7 +511,7 @@ func MainRun(args []string) int {
 		}
 	}
 	ins := families(rng, thorough)
-	nExec, nInputs, multiDec := 0, 0, 0
+	nExec, nInputs, multiDec, variantDec := 0, 0, 0, 0
 	readScheds := [][]int{{4096}, {1}, {2}, {59}, {60}, {61}, {3, 1, 7}}
 	for idx, in := range ins {
 		nInputs++
@@ -565,6 +567,31 @@ func MainRun(args []string) int {
 					nExec++
 				}
 			}
+			// other ways the same input reaches the compressor: io.Copy from a source that returns data together with EOF; after
+			// another user's compression failed at its destination.  The stream must be the same, and is judged like it.
+			if len(in.data) > 0 && (in.name != "short" || idx%17 == 0) {
+				for vi, variant := range []string{"io.Copy(DataErrReader)", "after another compression failed"} {
+					var comp []byte
+					var err error
+					if vi == 0 {
+						comp, err = compressCopy(in.data, crc)
+					} else {
+						otherUse(rng)
+						comp, err = safeCompress(in.data, []int{len(in.data)}, crc)
+					}
+					evs := []rec.Event{{"op": "Write", "n": len(in.data)}, {"op": "WClose", "ok": err == nil, "same": err == nil && bytes.Equal(comp, ref)}}
+					if err == nil {
+						revs, _, _ := readSession(comp, crc, []int{4096}, in.data, true, true, len(in.data), nil)
+						evs = append(evs, revs...)
+					}
+					w.Write(map[string]interface{}{"input": in.name, "len": len(in.data), "crc": crc, "variant": variant}, evs)
+					nExec++
+					if err == nil && crc && *budget > 0 && !bytes.Equal(comp, ref) && len(in.data) <= 70000 && variantDec < 6 {
+						variantDec++
+						addDec(in.name+"/"+variant, comp, crc, in.data)
+					}
+				}
+			}
 			// C07 (a): the library's stream goes to the reference decoder, within the symbol budget
 			cost := len(in.data) + 20
 			// window-boundary shapes are always judged by the reference codec (they are where a wrong lookahead mirror,
@@ -592,6 +619,41 @@ func MainRun(args []string) int {
 			spent += 5 * len(in.data)
 		}
 	}
+	// independent compressors working at the same time (different goroutines, different inputs) produce what they produce alone
+	{
+		var cin []input
+		for _, in := range ins {
+			if len(in.data) >= 4000 && len(in.data) <= 70000 && len(cin) < 8 {
+				cin = append(cin, in)
+			}
+		}
+		alone := make([][]byte, len(cin))
+		for i, in := range cin {
+			alone[i], _ = safeCompress(in.data, []int{len(in.data)}, true)
+		}
+		for round := 0; round < 6; round++ {
+			together := make([][]byte, len(cin))
+			var wg sync.WaitGroup
+			for i := range cin {
+				wg.Add(1)
+				go func(i int) {
+					defer wg.Done()
+					together[i], _ = safeCompress(cin[i].data, []int{len(cin[i].data)}, true)
+				}(i)
+			}
+			wg.Wait()
+			for i, in := range cin {
+				same := together[i] != nil && bytes.Equal(together[i], alone[i])
+				w.Write(map[string]interface{}{"input": in.name, "len": len(in.data), "crc": true, "variant": "concurrent compressors"},
+					[]rec.Event{{"op": "Write", "n": len(in.data)}, {"op": "WClose", "ok": together[i] != nil, "same": same}})
+				nExec++
+				if !same && together[i] != nil && *budget > 0 && variantDec < 8 {
+					variantDec++
+					addDec(in.name+"/concurrent compressors", together[i], true, in.data)
+				}
+			}
+		}
+	}
 	// the repository's golden files: reference output of another encoder generation, they test the specification too
 	if ents, err := os.ReadDir(*testdata); err == nil {
 		for _, e := range ents {
@@ -610,6 +672,51 @@ func MainRun(args []string) int {
 	}
 	fmt.Printf("{\"traces\":%d,\"inputs\":%d,\"executions\":%d,\"jobs\":%d,\"symbols\":%d}\n", w.Count(), nInputs, nExec, jobID, spent)
 	return 0
+}
+
+// failingDest accepts n bytes and then fails.
+type failingDest struct{ n int }
+
+func (f *failingDest) Write(p []byte) (int, error) {
+	if f.n <= 0 {
+		return 0, errors.New("destination failed")
+	}
+	k := min(f.n, len(p))
+	f.n -= k
+	if k < len(p) {
+		return k, errors.New("destination failed")
+	}
+	return k, nil
+}
+
+// otherUse is what another, unrelated user of the package does before the compression under test: a compression whose
+// destination fails while Close writes the stream (its error is that user's business), and a second Close.
+func otherUse(rng *rand.Rand) {
+	defer func() { recover() }()
+	junk := make([]byte, 20000)
+	rng.Read(junk)
+	w := lzhuf.NewWriter(&failingDest{n: 100}, true)
+	w.Write(junk)
+	w.Close()
+	w.Close()
+}
+
+// compressCopy feeds the compressor with io.Copy from a source that returns its last bytes together with io.EOF.
+func compressCopy(data []byte, crc bool) (out []byte, err error) {
+	defer func() {
+		if p := recover(); p != nil {
+			err = fmt.Errorf("panic: %v", p)
+		}
+	}()
+	var b bytes.Buffer
+	w := lzhuf.NewWriter(&b, crc)
+	if _, err := io.Copy(w, iotest.DataErrReader(bytes.NewReader(data))); err != nil {
+		return nil, err
+	}
+	if err := w.Close(); err != nil {
+		return nil, err
+	}
+	return b.Bytes(), nil
 }
 
 func safeCompress(data []byte, part []int, crc bool) (out []byte, err error) {
